@@ -113,10 +113,19 @@ type link struct {
 	callee string
 	// check is given the state just before the call and its argument terms; returns problems
 	check func(s *an.PathState, args []*an.Term) []string
+	// id: the rule the link is reported under ("" = C04.1)
+	id string
+}
+
+func (l link) rule() string {
+	if l.id != "" {
+		return l.id
+	}
+	return "C04.1"
 }
 
 func evalLink(c *an.Ctx, p *an.Prog, l link) {
-	if !need(c, "C04.1", l.fn, l.name) {
+	if !need(c, l.rule(), l.fn, l.name) {
 		return
 	}
 	sites := an.CallsTo(l.fn, l.callee)
@@ -135,7 +144,7 @@ func evalLink(c *an.Ctx, p *an.Prog, l link) {
 		}
 	}
 	if len(sites) == 0 {
-		c.Undecided("C04.1", "link="+l.name, p.Pos(l.fn.Pos()), "UNRESOLVED: no call to "+shortName(l.callee)+" in "+fnKey(l.fn))
+		c.Undecided(l.rule(), "link="+l.name, p.Pos(l.fn.Pos()), "UNRESOLVED: no call to "+shortName(l.callee)+" in "+fnKey(l.fn))
 		return
 	}
 	for _, ci := range sites {
@@ -149,7 +158,7 @@ func evalLink(c *an.Ctx, p *an.Prog, l link) {
 		if !er.Complete {
 			bad = append(bad, "path limit")
 		}
-		c.Check(len(bad) == 0 && n > 0, "C04.1", "link="+l.name, p.InstrPos(ci), fmt.Sprintf("credentials passed unchanged and in position on %d paths", n), strings.Join(uniqS(bad), "; "))
+		c.Check(len(bad) == 0 && n > 0, l.rule(), "link="+l.name, p.InstrPos(ci), fmt.Sprintf("credentials passed unchanged and in position on %d paths", n), strings.Join(uniqS(bad), "; "))
 	}
 }
 
@@ -338,43 +347,7 @@ func c041(c *an.Ctx, p *an.Prog) {
 		})
 		c.Check(len(bad) == 0 && n > 0, "C04.1", "link=dispatcher[authenticateChan] -> s.authenticate", p.Pos(d.Pos()), "dispatcher passes the received (username, password) unchanged and answers on the request's channel", strings.Join(uniqS(bad), "; "))
 	}
-	if fn := p.Method("/cmd/whawty-auth", "store", "authenticate"); need(c, "C04.1", fn, "main.(*store).authenticate") {
-		evalLink(c, p, link{name: "s.authenticate -> lib.Dir.Authenticate", fn: fn, callee: "(*" + storePkg + ".Dir).Authenticate", check: func(s *an.PathState, a []*an.Term) []string {
-			var bad []string
-			if !(a[0].Op == "load" && a[0].Args[0].Aux == "dir") {
-				bad = append(bad, "not called on s.dir")
-			}
-			bad = append(bad, wantKey(a[1], s.T(fn.Params[1]).K, "user name")...)
-			bad = append(bad, wantKey(a[2], s.T(fn.Params[2]).K, "password")...)
-			return bad
-		}})
-		// result fields in order
-		var bad []string
-		an.EnumPaths(fn, nil, nil, func(s *an.PathState) {
-			var call *an.Term
-			for _, e := range s.Events {
-				if e.Kind == "call" && e.Callee == "(*"+storePkg+".Dir).Authenticate" {
-					call = e.Res
-				}
-			}
-			ret := lastReturn(s)
-			if call == nil || ret == nil {
-				bad = append(bad, "no call / return")
-				return
-			}
-			rv := ret.Args[0]
-			if rv.Op != "load" || rv.Args[0].Op != "alloc" {
-				bad = append(bad, "result is not the local result struct")
-				return
-			}
-			// fields were stored individually; the whole-struct load happens at return
-			for i, f := range []string{"ok", "isAdmin", "upgradeable", "lastChanged", "err"} {
-				got := fieldStoredAt(s, rv.Args[0], f)
-				bad = append(bad, wantKey(got, extractOf(call, i).K, "result."+f)...)
-			}
-		})
-		c.Check(len(bad) == 0, "C04.1", "link=s.authenticate results", p.Pos(fn.Pos()), "result fields ok/isAdmin/upgradeable/lastChanged/err are results 0..4 of Dir.Authenticate", strings.Join(uniqS(bad), "; "))
-	}
+	authTurnRule(c, p, "C04.1")
 	if fn := p.Method("/store", "Dir", "Authenticate"); need(c, "C04.1", fn, "store.(*Dir).Authenticate") {
 		evalLink(c, p, link{name: "Dir.Authenticate -> UserHash.Authenticate", fn: fn, callee: "(*" + storePkg + ".UserHash).Authenticate", check: func(s *an.PathState, a []*an.Term) []string {
 			var bad []string
@@ -888,4 +861,48 @@ func reachesCall(p *an.Prog, g *ssa.Function, callee string, depth int) bool {
 		}
 	}
 	return false
+}
+
+// authTurnRule (C04.1; shared as C11.6 — "every response equals what the sequential store semantics gives": no answer from
+// an earlier turn — and as C06.10 — "current admin status"): the dispatcher's s.authenticate calls Dir.Authenticate on s.dir
+// with the request's own user name and password on every path, and the five fields of its answer are results 0..4 of that
+// call: nothing remembered from an earlier request can be returned.
+func authTurnRule(c *an.Ctx, p *an.Prog, id string) {
+	if fn := p.Method("/cmd/whawty-auth", "store", "authenticate"); need(c, id, fn, "main.(*store).authenticate") {
+		evalLink(c, p, link{id: id, name: "s.authenticate -> lib.Dir.Authenticate", fn: fn, callee: "(*" + storePkg + ".Dir).Authenticate", check: func(s *an.PathState, a []*an.Term) []string {
+			var bad []string
+			if !(a[0].Op == "load" && a[0].Args[0].Aux == "dir") {
+				bad = append(bad, "not called on s.dir")
+			}
+			bad = append(bad, wantKey(a[1], s.T(fn.Params[1]).K, "user name")...)
+			bad = append(bad, wantKey(a[2], s.T(fn.Params[2]).K, "password")...)
+			return bad
+		}})
+		// result fields in order
+		var bad []string
+		an.EnumPaths(fn, nil, nil, func(s *an.PathState) {
+			var call *an.Term
+			for _, e := range s.Events {
+				if e.Kind == "call" && e.Callee == "(*"+storePkg+".Dir).Authenticate" {
+					call = e.Res
+				}
+			}
+			ret := lastReturn(s)
+			if call == nil || ret == nil {
+				bad = append(bad, "no call / return")
+				return
+			}
+			rv := ret.Args[0]
+			if rv.Op != "load" || rv.Args[0].Op != "alloc" {
+				bad = append(bad, "result is not the local result struct")
+				return
+			}
+			// fields were stored individually; the whole-struct load happens at return
+			for i, f := range []string{"ok", "isAdmin", "upgradeable", "lastChanged", "err"} {
+				got := fieldStoredAt(s, rv.Args[0], f)
+				bad = append(bad, wantKey(got, extractOf(call, i).K, "result."+f)...)
+			}
+		})
+		c.Check(len(bad) == 0, id, "link=s.authenticate results", p.Pos(fn.Pos()), "result fields ok/isAdmin/upgradeable/lastChanged/err are results 0..4 of Dir.Authenticate", strings.Join(uniqS(bad), "; "))
+	}
 }
